@@ -428,7 +428,8 @@ func floorMulDec(x sdk.Int, d sdk.Dec) sdk.Int {
 // ---------- C03 ----------
 
 type c03Oracle struct {
-	pre struct {
+	reportedCeil bool
+	pre          struct {
 		valid       bool
 		kind        string
 		ext, app    uint64
@@ -534,6 +535,18 @@ func (o *c03Oracle) After(w *World, ev *Event, res Result) *Violation {
 		for _, x := range w.App.VaultKeeper.GetVaults(ctx) {
 			if x.AppId == o.pre.app && x.ExtendedPairVaultID == o.pre.ext {
 				tot = tot.Add(x.AmountOut)
+			}
+		}
+		if tot.GT(ep.DebtCeiling) && w.Liq != nil {
+			skew := getOr0(w.Liq.mintedSkew, prodKey{o.pre.app, o.pre.ext})
+			if skew.IsPositive() && tot.Sub(skew).LTE(ep.DebtCeiling) {
+				// consequence of the listed C01 finding: the product total the ceiling check reads is understated by exactly this skew
+				if !o.reportedCeil {
+					o.reportedCeil = true
+					return &Violation{Property: "C03", OracleID: "c03.ceiling", Signature: "bypassed_via_understated_tokens_minted_after_v2_settlement", Continue: true,
+						Detail: fmt.Sprintf("after %s product (%d,%d) has outstanding principal %s above the ceiling %s; the product's published tokens-minted is understated by %s (interest+closing fee of settled V2 vault auctions), which is what the ceiling check reads", kind, o.pre.app, o.pre.ext, tot, ep.DebtCeiling, skew)}
+				}
+				tot = ep.DebtCeiling
 			}
 		}
 		if tot.GT(ep.DebtCeiling) {
